@@ -219,6 +219,14 @@ def run(tier):
     ck.extra["rule"] = "one case = (content class and size, writer configuration, write segmentation, descriptor situation) or one zck/unzck tool pipeline"
     ck.assumptions = ["zstd's own fidelity", "reference decoder defines validity and content of the produced file"]
     shutil.rmtree(wd, ignore_errors=True)
+    # allocation failures under the sanitizers (verif/allocfault.py): writer runs with every allocation of zchunk's own code
+    # refused in turn; heap corruption is a violation, a stop on NULL is recorded
+    from .. import allocfault as _af
+    _wd = common.workdir("c01asan")
+    common.build("asan")
+    for what, scr in _af.asan_writer_sweep(ck, tier, _wd, rnd):
+        ck.violation(what, scr)
+    shutil.rmtree(_wd, ignore_errors=True)
     return ck.finish()
 
 
